@@ -89,8 +89,8 @@ JudgeRes(t) ==
     LET n  == t.n
         pl == Pixels(n[1], t.px100, t.res100)
         ph == IF t.filt = "bandpass" THEN Pixels(n[1], t.px100, t.hres100) ELSE pl
-    IN  IF PixelsTie(n[1], t.px100, t.res100) \/ pl < 1 \/ ph < 1 \/ ph > pl
-           \/ (t.filt = "bandpass" /\ PixelsTie(n[1], t.px100, t.hres100))
+    IN  IF ~PixelsDecided(n[1], t.px100, t.res100) \/ pl < 1 \/ ph < 1 \/ ph > pl
+           \/ (t.filt = "bandpass" /\ ~PixelsDecided(n[1], t.px100, t.hres100))
             THEN V(FALSE, "malformed_request", <<>>)
         ELSE IF ~t.real \/ ~DimsOK(t.tab, n) THEN V(FALSE, "C12_RealValuedSameShape", <<>>)
         ELSE FirstBad(<< <<"C12_ResolutionMapsToPixels",
@@ -113,7 +113,31 @@ JudgeDtype(t) ==
         ELSE LET i == CHOOSE x \in fails : \A y \in fails : x <= y
              IN  V(FALSE, bad(t.runs[i]), <<i>>)
 
-Judge(t) == IF t.kind = "filt" THEN JudgeFilt(t) ELSE IF t.kind = "dtype" THEN JudgeDtype(t) ELSE JudgeRes(t)
+\* hard-edged low-pass at every integer cutoff of a large box (t.n up to 48 per axis): per cutoff the gain table is
+\* logged loss-free as t.sweeps[i] = [r, binary, runs], runs[(a * n2 + b) + 1] = the maximal k3-intervals <<lo, hi>>
+\* (frequency coordinates) of gain 1 in the column of DFT position (a, b).  Every column must be exactly the interval
+\* k3^2 <= r^2 - k1^2 - k2^2: lattice points lying exactly on the sphere (Pythagorean quadruples) included.
+BadColumns(sw, n) ==
+    {c \in 0 .. (n[1] * n[2] - 1) :
+        LET k1 == KOf(c \div n[2], n[1])
+            k2 == KOf(c % n[2], n[2])
+            rs == sw.runs[c + 1]
+        IN  IF ColumnRoom(k1, k2, sw.r) < 0 THEN rs # <<>>
+            ELSE ~(Len(rs) = 1 /\ RunIsColumn(rs[1][1], rs[1][2], k1, k2, sw.r, n[3]))}
+JudgeSweep(t) ==
+    IF ~t.real THEN V(FALSE, "C12_RealValuedSameShape", <<>>)
+    ELSE LET bad == {i \in DOMAIN t.sweeps :
+                       \/ t.sweeps[i].r < 1 \/ ~t.sweeps[i].binary \/ Len(t.sweeps[i].runs) # t.n[1] * t.n[2]
+                       \/ BadColumns(t.sweeps[i], t.n) # {}}
+         IN  IF bad = {} THEN V(TRUE, "none", <<>>)
+             ELSE LET i == CHOOSE x \in bad : \A y \in bad : x <= y
+                      sw == t.sweeps[i]
+                  IN  IF ~sw.binary \/ Len(sw.runs) # t.n[1] * t.n[2] THEN V(FALSE, "C12_HardEdgeIsRadialStep", <<sw.r>>)
+                      ELSE LET c == CHOOSE x \in BadColumns(sw, t.n) : TRUE
+                           IN  V(FALSE, "C12_HardEdgeIsRadialStep", <<sw.r, KOf(c \div t.n[2], t.n[1]), KOf(c % t.n[2], t.n[2])>>)
+
+Judge(t) == IF t.kind = "filt" THEN JudgeFilt(t) ELSE IF t.kind = "dtype" THEN JudgeDtype(t)
+            ELSE IF t.kind = "sweep" THEN JudgeSweep(t) ELSE JudgeRes(t)
 
 TraceInit == tid \in 1 .. Len(Traces) /\ verdict = V(TRUE, "pending", <<>>)
 TraceNext == verdict.clause = "pending" /\ verdict' = Judge(Traces[tid]) /\ UNCHANGED tid
